@@ -136,26 +136,41 @@ def r2(chk, fx, t, paths):
     fn = "<Maybe<Candidate>>::read_xml"
     sel = [p for p in paths if selected(p)]
     chk.floor("C16/R2 Candidate construction sites", len(sel), 1)
+    # the loop-carried variables by what is stored in them (not by what they are called): the parsed annotation, the policy's name,
+    # the flag set for <reject/>
+    expr_vars = {a[1] for p in paths for a in p.assigns() if "str::parse(" in A.vstr(a[2])}
+    name_vars = {a[1] for p in paths for a in p.assigns() if any(x[0] == "adt" and x[1].endswith("policies::Name") for x in A.walk_value(a[2]))}
+    flag_vars = {a[1] for p in paths for a in p.assigns() if a[2] == ("lit", True) and holds_true(p, "'reject'")}
+    if not expr_vars or not name_vars or not flag_vars:
+        raise F.AnchorLost("Maybe<Candidate>::read_xml: annotation / name / reject-flag variable not found (%s, %s, %s)" % (expr_vars, name_vars, flag_vars))
+
+    def about(k, names):
+        return any(("«loop:%s»" % n) in k for n in names)
+
+    def flag(p):
+        vals = [p.assumed_bool("«loop:%s»" % f) for f in flag_vars]
+        vals = [v for v in vals if v is not None]
+        return vals[0] if vals else None
     # what a selected statement had to satisfy — read off the assumptions of the selecting paths
-    expr_some = all(any(k.startswith("variant:«loop:") and "filter_expr" in k and v == "Some" for k, v in p.assume.items()) for p in sel)
-    none_when_missing = [p for p in paths if any(k.startswith("notvariant:«loop:") and "filter_expr" in k for k in p.assume) or
-                         any(k.startswith("variant:«loop:") and "filter_expr" in k and v == "None" for k, v in p.assume.items())]
+    expr_some = all(any(k.startswith("variant:") and about(k, expr_vars) and v == "Some" for k, v in p.assume.items()) for p in sel)
+    none_when_missing = [p for p in paths if any(k.startswith("notvariant:") and about(k, expr_vars) for k in p.assume) or
+                         any(k.startswith("variant:") and about(k, expr_vars) and v == "None" for k, v in p.assume.items())]
     chk.instance("C16/R2", "a statement without a parseable bgpfu-fltr annotation yields Maybe(None)", t["def"], loc_of(t.get("sp")),
                  holds=expr_some and bool(none_when_missing) and all(ret_is_none(p) or ret_is_err(p) for p in none_when_missing),
                  key="C16/R2 %s annotation-required" % fn)
-    rej = all(any("reject" in k and v is True for k, v in p.assume.items() if k.startswith("«loop:")) for p in sel)
+    rej = all(flag(p) is True for p in sel)
     chk.instance("C16/R2", "Candidate{..} is built only when the default action seen was reject", t["def"], loc_of(t.get("sp")), holds=rej,
                  key="C16/R2 %s candidate-without-reject" % fn)
-    named = all(any(k.startswith("variant:«loop:name") and v == "Some" for k, v in p.assume.items()) for p in sel)
-    noname = [p for p in paths if any(k.startswith("variant:«loop:name") and v == "None" for k, v in p.assume.items()) and
-              any("reject" in k and v is True for k, v in p.assume.items() if k.startswith("«loop:")) and p.after_loop_with("read_resolved_event")]
+    named = all(any(k.startswith("variant:") and about(k, name_vars) and v == "Some" for k, v in p.assume.items()) for p in sel)
+    noname = [p for p in paths if any(k.startswith("variant:") and about(k, name_vars) and v == "None" for k, v in p.assume.items()) and
+              flag(p) is True and p.after_loop_with("read_resolved_event")]
     chk.instance("C16/R2", "a selected statement must have a name (MissingElement otherwise)", t["def"], loc_of(t.get("sp")),
                  holds=named and bool(noname) and all(ret_is_err(p) and "MissingElement" in A.vstr(p.ret) for p in noname), key="C16/R2 %s name-required" % fn)
-    norej = [p for p in paths if any("reject" in k and v is False for k, v in p.assume.items() if k.startswith("«loop:")) and p.after_loop_with("read_resolved_event")]
+    norej = [p for p in paths if flag(p) is False and p.after_loop_with("read_resolved_event")]
     chk.instance("C16/R2", "without the default reject action the statement is not selected", t["def"], loc_of(t.get("sp")),
                  holds=bool(norej) and not any(selected(p) for p in norej) and any(ret_is_none(p) for p in norej), key="C16/R2 %s else-branch" % fn)
     # reject flag: set only for <then> .. <reject/> in the Junos namespace
-    setters = [p for p in paths if any(a[1].startswith("reject") and a[2] == ("lit", True) for a in p.assigns())]
+    setters = [p for p in paths if any(a[1] in flag_vars and a[2] == ("lit", True) for a in p.assigns())]
     ok = bool(setters) and all(holds_true(p, "'then'") and holds_true(p, "'reject'") and sum(1 for k, v in p.assume.items() if "xml.juniper.net/xnm" in k and v is True) >= 2
                                for p in setters)
     chk.instance("C16/R2", "the reject flag becomes true only for <then><reject/> in the Junos namespace", t["def"], None, holds=ok,
@@ -201,7 +216,8 @@ def call_chain(v):
 def r3(chk, fx, t, paths):
     fn = "<Maybe<Candidate>>::read_xml"
     want = ["str::parse", "str::strip_prefix", "str::trim", "str::trim_matches", "Attribute::unescape_value"]
-    setters = [(p, a) for p in paths for a in p.assigns() if "filter_expr" in a[1] or "expr" in a[1]]
+    setters = [(p, a) for p in paths for a in p.assigns() if "str::parse(" in A.vstr(a[2])]
+    expr_vars = {a[1] for (_, a) in setters}
     chk.floor("C16/R3 expression assignments", len(setters), 1)
     ok, chars, prefix, detail = True, set(), set(), None
     for p, a in setters:
@@ -227,7 +243,7 @@ def r3(chk, fx, t, paths):
     for p in sel:
         c = [x for x in A.walk_value(p.ret) if x[0] == "adt" and x[1].endswith("policies::Candidate")]
         fe = A.fields_of(c[0]).get("filter_expr") if c else None
-        good = good and fe is not None and fe[0] == "payload" and "filter_expr" in A.vstr(fe[1]) or (good and fe is not None and "expr" in A.vstr(fe))
+        good = good and fe is not None and any(("«loop:%s»" % v) in A.vstr(fe) for v in expr_vars)
     chk.instance("C16/R3", "Candidate.filter_expr is the parsed annotation", t["def"], None, holds=bool(sel) and bool(good), key="C16/R3 %s filter_expr-origin" % fn)
     # names: read_text -> trim -> unescape -> Name, for both statement readers
     n = 0
